@@ -11,7 +11,7 @@ import hashlib
 import hmac as pyhmac
 import random
 
-from ..core import B, outcome, hash_prim
+from ..core import toy_guard, B, outcome, hash_prim
 from ..toycurve import curve_params, toy
 from .c03 import le, N256
 from .c09 import T, h256row
@@ -270,16 +270,6 @@ def run(ctx):
                 "serialise/parse/traverse/blind calls decided by TLC; distinct = (index class, hardened), version prefix, (path depth, notation, case)")
     ctx.assumptions = ["child public points come from the library's scalar multiplication (C03); HMAC-SHA512 / hash160 / hash256 rows certified with hmac/hashlib",
                        "I_L >= n or a zero child key (probability 2^-127) cannot be exhibited on secp256k1; on toy groups the library's modular formula is the specification"]
-    if ctx.want("toy"):
-        for curve in (TOY[:1] if q else TOY):
-            n, g = curve_params(*curve)
-            cfg = "%s/b32_%d.cfg" % (ctx.tmp, curve[0])
-            with open(cfg, "w") as f:
-                f.write("SPECIFICATION Spec\nCONSTANTS\n  PP = %d\n  AA = %d\n  BB = %d\n  NN = %d\n  GX = %d\n  GY = %d\nINVARIANT PubPrivConsistent\nINVARIANT DepthIsPathLength\n" % (curve + (n, g[0], g[1])))
-            tab = ctx.table("bip32/BIP32Toy.tla", cfg, env={"MAXDEPTH": 3 if q or n > 20 else 4, "EXPORT": 1}, workers=8, timeout=7200)
-            if tab:
-                replay_toy(ctx, curve, tab)
-        ctx.exhaustive.append("BIP32Toy: every root key x 2 chain codes x every path of <= 3 steps over 6 boundary indexes: public chain = neutered private chain; complete CKD tables replayed")
     if ctx.want("real"):
         cases = real_cases(ctx, rng, 6 if q else 60)
         for c in cases:
@@ -290,3 +280,15 @@ def run(ctx):
         for cid, why in bad.items():
             c = byid[cid]
             ctx.violation("%s:%s" % (c["kind"], why), "%s case %s: %s" % (c["kind"], cid, why), {"kind": "case", "case": {k: v for k, v in c.items() if k != "hr"}})
+    def _toy_part():
+        for curve in (TOY[:1] if q else TOY):
+            n, g = curve_params(*curve)
+            cfg = "%s/b32_%d.cfg" % (ctx.tmp, curve[0])
+            with open(cfg, "w") as f:
+                f.write("SPECIFICATION Spec\nCONSTANTS\n  PP = %d\n  AA = %d\n  BB = %d\n  NN = %d\n  GX = %d\n  GY = %d\nINVARIANT PubPrivConsistent\nINVARIANT DepthIsPathLength\n" % (curve + (n, g[0], g[1])))
+            tab = ctx.table("bip32/BIP32Toy.tla", cfg, env={"MAXDEPTH": 3 if q or n > 20 else 4, "EXPORT": 1}, workers=8, timeout=7200)
+            if tab:
+                replay_toy(ctx, curve, tab)
+        ctx.exhaustive.append("BIP32Toy: every root key x 2 chain codes x every path of <= 3 steps over 6 boundary indexes: public chain = neutered private chain; complete CKD tables replayed")
+    if ctx.want("toy"):
+        toy_guard(ctx, _toy_part)
